@@ -27,12 +27,12 @@ CLAIMED = {
     },
     "C04": {
         "text": PROG + "; for every variable (and its .optimize()/.persist() results) the key grid, key presence, dependency closure, acyclicity (Kahn) and name stability are checked, optimize-graph on and off. " + EXPL,
-        "note": "Dependencies are those dask._task_spec reports after convert_legacy_graph.",
+        "note": "Dependencies are those dask._task_spec reports after convert_legacy_graph. Every output object is afterwards updated in place (setitem, ufunc out=, +=) and the same closure checks are repeated on the same object under its new name.",
         "technique": "property-based testing: random programs, validity predicate over the task graph",
     },
     "C12": {
         "text": "Hypothesis-generated (array, chunking, index) cases covering every listed index form incl. dask-array indices, .vindex, .blocks and unknown-chunk sources, compared with NumPy indexing of the same data; 'raises' classification: NumPy IndexError => dask_array must raise. " + EXPL,
-        "note": "NumPy indexing is the reference; two fancy indices, dask-array indices combined with other elements and arrays with unknown chunk sizes may be refused with any exception (a value that is returned must still be NumPy's); regions of four listed open findings are excluded and counted.",
+        "note": "NumPy indexing is the reference; two fancy indices, dask-array indices combined with other elements and arrays with unknown chunk sizes may be refused with an IndexError/ValueError/TypeError/NotImplementedError (a value that is returned must still be NumPy's; an internal AttributeError/AssertionError/KeyError/RuntimeError is a failure, not a refusal); regions of the listed open findings are excluded or matched and counted.",
         "technique": "property-based testing: random indices vs NumPy reference (differential) with a raises-classification rule",
     },
     "C13": {
@@ -62,7 +62,7 @@ CLAIMED["C14"] = {
 
 CLAIMED["C05"] = {
     "text": PROG + " (single output) crossed with nine entry points (x.compute, dask.compute alone / with another array / with another array and a Delayed, x.persist, dask.persist, dask.optimize, x.optimize, x.to_delayed) and a follow-on operation on the returned collection; all values compared with the NumPy twin, name/chunks/dtype preservation checked for persist/optimize results. " + EXPL,
-    "note": "NumPy twin is the reference; three listed open findings (dask.optimize over un-lowered trees, dask.persist/optimize of sliding-window reductions, mixed array+Delayed compute with unculled tasks) are excluded by structural predicates and counted.",
+    "note": "NumPy twin is the reference; for a third of the cases the materialised object is then assigned in place through a dask boolean key and x.compute() and dask.compute(x) must both see the update; three listed open findings (dask.optimize over un-lowered trees, dask.persist/optimize of sliding-window reductions, mixed array+Delayed compute with unculled tasks) are excluded by structural predicates and counted.",
     "technique": "property-based testing: differential across entry points vs NumPy reference",
 }
 CLAIMED["C25"] = {
@@ -89,12 +89,12 @@ CLAIMED["C21"] = {
 }
 CLAIMED["C26"] = {
     "text": "Generated import orders of dask_array submodules and xarray (exhaustive single-module orders in the thorough tier, sampled in quick; Hypothesis permutations of 5-40 modules with xarray and register() at drawn positions), each run in a fresh interpreter with xarray's chunk manager, isactive() and DataArray.chunk() backend observed after every import; entry-point declarations re-read from pyproject.toml and installed metadata; generated xarray programs compared NumPy-backed vs dask_array-backed after register(). " + EXPL,
-    "note": "State is observed by reading xarray's cached manager table without clearing it (active and passive observation policies both exercised); 27 wrapper modules that need the absent native extension raise ImportError, which is swallowed like a user's try/import.",
+    "note": "State is observed by reading xarray's cached manager table without clearing it (active and passive observation policies both exercised); a third of the permutation cases run with DASK_ARRAY__QUERY_PLANNING=True and import dask.array along the way (the shared dispatch-slot path); 27 wrapper modules that need the absent native extension raise ImportError, which is swallowed like a user's try/import.",
     "technique": "property-based testing over import histories in fresh interpreters + differential xarray programs",
 }
 CLAIMED["C27"] = {
     "text": PROG + " incl. unknown-chunk producers: transfer_bytes evaluated on every node of the raw/simplified/lowered/fused/materialised trees (real pair, 0<=min<=max, NaN only beside unknown chunks, (0,0) for alias nodes and same-chunks rechunks); moved_fraction exhaustively on all composition pairs n<=7 (thorough n<=10) and random layouts up to n=500 against range, zero-for-split/identical and a brute-force model of its docstring; per-stage rechunk transfer on random layout pairs. " + EXPL,
-    "note": "Alias node types are those the code's docstrings describe as pure alias layers (RootAlias, ChunksOverride, ChunksFreeze, Concatenate, Blocks); no magnitudes or monotonicity asserted.",
+    "note": "Alias node types are those the code's docstrings describe as pure alias layers (RootAlias, ChunksOverride, ChunksFreeze, Concatenate, Blocks); a raw blockwise contraction (concatenate=True, contracted index absent from the output) is constructed over every 2-d output; no magnitudes or monotonicity asserted.",
     "technique": "property-based testing + exhaustive layout pairs vs validity predicates and a brute-force model",
 }
 
@@ -135,8 +135,8 @@ CLAIMED["C09"] = {
 
 CLAIMED["C24"] = {
     "text": "Hypothesis-generated slice/rechunk chains (unit, stepped, negative steps, ints, nested through rechunk / simplify() / transposes) over from_array of a recording non-NumPy source with drawn storage grid (.chunks/.shards/adapter chains), lock, getter (default, 4-argument, documented 2-argument), fancy, asarray, inline_array; plus small ndarrays and (thorough) a 72 MB ndarray kept above the eager-copy limit. Outputs must equal NumPy indexing of the source, every logged read must lie within the source's bounds, requested elements must cover what the output needs, and for pushable slice chains be a subset of what the unsliced prefix requests. " + EXPL,
-    "note": "Requests are observed through the source's own __getitem__ log; the subset relation is asserted only for unit-step/int chains with non-empty results (stepped/newaxis/empty selections legitimately read whole blocks).",
-    "technique": "property-based testing with recording sources: NumPy reference + invariant over logged reads + metamorphic subset relation",
+    "note": "Requests are observed through the source's own __getitem__ log; over-reads (a slice of y requesting more than y) are counted as a class, not judged - the property asks for NumPy's elements and in-bounds requests, not minimal reads. The family numpy-scaled-limit lowers the module constant _NUMPY_SLICE_PUSHDOWN_NBYTES_LIMIT in-process to 2 kB so that deferred-region, eager-copy and the transition inside one chain of 1-4 windows are reached with 40x40 arrays (the thorough tier also runs 72 MB arrays against the real limit).",
+    "technique": "property-based testing with recording sources: NumPy reference + invariant over logged reads (bounds, needed elements requested)",
 }
 CLAIMED["C28"] = {
     "text": "Hypothesis-generated data-dependent selections (13 producers: dask/NumPy masks, row masks, nonzero, argwhere, flatnonzero, unique variants, compress, extract, one-argument where) over small chunked arrays with empty and fully selected blocks; compute_chunk_sizes() must yield exactly the executed block shapes (own executor and the harness' per-block selection counts) and NumPy's values; one of 35 follow-on operations is applied before resolving (must raise or equal NumPy; raise/succeed split reported per operation) and after (must equal NumPy). " + EXPL,
@@ -145,7 +145,7 @@ CLAIMED["C28"] = {
 }
 CLAIMED["C29"] = {
     "text": PROG + " over recording non-NumPy sources with spying map_blocks/blockwise functions; after building, a Hypothesis-drawn sequence of metadata accessors (every node's metadata incl. _meta and transfer_bytes), repr/html, tokenize, pickle, simplify, optimize, lower, graph construction and explain is applied; until execution starts no source may be asked for a non-empty selection or converted with __array__, and no user block function may be called on a non-empty block; afterwards compute equals NumPy. " + EXPL,
-    "note": "NumPy sources are exempt (the property says non-NumPy); a user function called by meta inference on a 0-d meta is a class, not a failure (no empty 0-d array exists); three listed open findings excluded by predicates.",
+    "note": "NumPy sources are exempt (the property says non-NumPy); sources enter through from_array, da.asarray or da.asanyarray; lazily computed 0-d dask indices (x[v.argmax()]) are generated here to audit WHEN they are computed (what they return is C12's business); a user function called by meta inference on a 0-d meta is a class, not a failure (no empty 0-d array exists); listed open findings excluded by predicates.",
     "technique": "property-based testing with recording sources and spy functions: invariant over the pre-execution history",
 }
 
